@@ -166,6 +166,19 @@ pub fn run(ctx: &Ctx, rep: &mut Report) {
         rep.nontrivial(&arg);
         check_arg(&arg, want, true, r.usize(3), &format!("multi:{}", i), rep, i % 50 == 0, false);
     });
+    // chmod's fuller grammar (X, empty who, empty permission list): may be refused; if accepted the
+    // bits are fixed by chmod (X adds execute only where an execute bit is already set)
+    let fuller = ["a+X", "u+X", "+X", "u+x,a+X", "u+x,g+X", "a=X", "u=rX", "+r", "+x", "=r", "u=", "a=", "u+r,g=", "ug+Xr", "a+x,o=X", "a+X,u+x"];
+    par_cases(ctx, "fuller", (fuller.len() * 3) as u64, rep, |i, rep| {
+        rep.evaluations += 1;
+        let text = format!("-perm {}{}", ["", "-", "/"][(i as usize) / fuller.len()], fuller[(i as usize) % fuller.len()]);
+        match crate::cmp::compare(&text) {
+            crate::cmp::Cmp::Bad { kind, what, detail } => rep.violation(&format!("C08:fuller-grammar:{}", kind), &what, &format!("fuller:{}", i), detail),
+            crate::cmp::Cmp::Skip(_) => rep.skipped_unspecified += 1,
+            crate::cmp::Cmp::AgreeOk(..) => rep.count("fuller_grammar_accepted_with_chmod_bits"),
+            crate::cmp::Cmp::AgreeErr(..) => rep.count("fuller_grammar_refused"),
+        }
+    });
     if ctx.only.is_none() {
         rep.floor("permission checks executed", rep.get("modes_executed") > 1000);
     }
